@@ -405,10 +405,10 @@ func c30Final(pts []int64) func(w *vx.W, s *c30State) {
 func TestVerif_C30(t *testing.T) {
 	vx.Run(t, "C30", func(c *vx.Ctx) {
 		P := vx.Pick(c,
-			[]int64{0, 1, 4095, 4096, 4097, 8192, 8193},
+			[]int64{0, 1, 4095, 4096, 4097, 8192},
 			[]int64{0, 1, 4095, 4096, 4097, 8191, 8192, 8193, 12288})
 		L := vx.Pick(c,
-			[]int64{0, 1, 4095, 4096, 4097, 8193},
+			[]int64{0, 1, 4095, 4097, 8193},
 			[]int64{0, 1, 2, 4095, 4096, 4097, 8193})
 		depth := vx.Pick(c, 4, 5)
 		var ops []c30Op
@@ -417,7 +417,7 @@ func TestVerif_C30(t *testing.T) {
 				ops = append(ops, c30Op{K: "w", Off: off, Len: n, Mid: -1})
 			}
 		}
-		for _, n := range []int64{1, 4095, 4096, 4097} {
+		for _, n := range vx.Pick(c, []int64{1, 4096, 4097}, []int64{1, 4095, 4096, 4097}) {
 			ops = append(ops, c30Op{K: "we", Len: n, Mid: -1})
 		}
 		for _, off := range P {
@@ -425,11 +425,11 @@ func TestVerif_C30(t *testing.T) {
 		}
 		ops = append(ops, c30Op{K: "de", Mid: -1})
 		for _, n := range []int64{1, 4096} {
-			for _, mid := range []int64{-1, -2, 4096, 8192} {
+			for _, mid := range vx.Pick(c, []int64{-1, -2, 4096}, []int64{-1, -2, 4096, 8192}) {
 				ops = append(ops, c30Op{K: "f", Len: n, Mid: mid})
 			}
 		}
-		c.Rule(fmt.Sprintf("breadth-first search to depth %d from the empty pipe over %d operations: writeAt(off in %v, len in %v), writeAt(end, len in {1,4095,4096,4097}), discardBefore(off in the same offsets, off >= start), discardBefore(end), and the Stream.Write fast path (availableBuffer, optional discardBefore(end|4096|8192) in between, write min(len, available) for len in {1,4096}, end += n); pooled 4096-byte chunks (natural size). States are deduplicated on (start, end, chunk offsets and tail, runs of written/never-written offsets in the window). After every operation: start, end and the whole window [start,end) via copy are compared with an offset->byte array (a divergence makes a distinct state and is reported by the per-state check); on every new state: copy and read (callback concatenation) of every sub-range with endpoints in the offsets u {start,start+1,end-1,end}, and peek(n). Non-trivial = an operation that was applied and compared.", depth, len(ops), P, L))
+		c.Rule(fmt.Sprintf("breadth-first search to depth %d from the empty pipe over %d operations: writeAt(off in %v, len in %v), writeAt(end, len in {1,[4095,]4096,4097}), discardBefore(off in the same offsets, off >= start), discardBefore(end), and the Stream.Write fast path (availableBuffer, optional discardBefore(end|4096[|8192]) in between, write min(len, available) for len in {1,4096}, end += n); pooled 4096-byte chunks (natural size). States are deduplicated on (start, end, chunk offsets and tail, runs of written/never-written offsets in the window). After every operation: start, end and the whole window [start,end) via copy are compared with an offset->byte array (a divergence makes a distinct state and is reported by the per-state check); on every new state: copy and read (callback concatenation) of every sub-range with endpoints in the offsets u {start,start+1,end-1,end}, and peek(n). Non-trivial = an operation that was applied and compared.", depth, len(ops), P, L))
 		c.Assume("the pipe never branches on byte values, so states that agree on structure (and whose contents were just verified equal to the model's) have equal futures")
 		c.Assume("never-written offsets inside the window (holes left by out-of-order writes or by advancing the window without data) have unspecified contents and are not compared; reads are only issued inside [start,end); discardBefore only moves forward; peek may return fewer than n bytes (documented range [0,n]); the chunk-list relations of the struct comments are recorded as outcomes, not asserted")
 		vx.Seq(c, vx.SeqSpec[*c30State, c30Op]{
